@@ -345,3 +345,219 @@ func trees(pre, in, post []int, all bool) []shape {
 	}
 	return u
 }
+
+// ---------------------------------------------------------------- removal families
+
+// BuildOrders are deterministic insertion orders of the values 0..n-1.
+var BuildOrders = []struct {
+	Name string
+	F    func(n int) []int
+}{
+	{"asc", func(n int) []int { return perm(n, func(i int) int { return i }) }},
+	{"desc", func(n int) []int { return perm(n, func(i int) int { return n - 1 - i }) }},
+	{"level-order", levelOrder},
+	{"scramble7", func(n int) []int { return scramble(n, 7) }},
+	{"scramble13", func(n int) []int { return scramble(n, 13) }},
+	{"inside-out", func(n int) []int {
+		var o []int
+		lo, hi := (n-1)/2, (n-1)/2+1
+		for lo >= 0 || hi < n {
+			if lo >= 0 {
+				o = append(o, lo)
+				lo--
+			}
+			if hi < n {
+				o = append(o, hi)
+				hi++
+			}
+		}
+		return o
+	}},
+	{"zigzag", func(n int) []int {
+		var o []int
+		for i, j := 0, n-1; i <= j; i, j = i+1, j-1 {
+			o = append(o, i)
+			if i != j {
+				o = append(o, j)
+			}
+		}
+		return o
+	}},
+}
+
+func perm(n int, f func(int) int) []int {
+	o := make([]int, n)
+	for i := range o {
+		o[i] = f(i)
+	}
+	return o
+}
+
+// scramble is i*m mod n' over the smallest n' >= n coprime with m, filtered to < n: a permutation.
+func scramble(n, m int) []int {
+	np := n
+	for gcd(np, m) != 1 {
+		np++
+	}
+	var o []int
+	for i := 0; i < np; i++ {
+		if v := (i*m + 3) % np; v < n {
+			o = append(o, v)
+		}
+	}
+	return o
+}
+
+func gcd(a, b int) int {
+	for b != 0 {
+		a, b = b, a%b
+	}
+	return a
+}
+
+// levelOrder inserts the median first, then the medians of the halves, ...: a perfectly
+// balanced tree without any rotation.
+func levelOrder(n int) []int {
+	var o []int
+	type seg struct{ lo, hi int }
+	q := []seg{{0, n - 1}}
+	for len(q) > 0 {
+		s := q[0]
+		q = q[1:]
+		if s.lo > s.hi {
+			continue
+		}
+		m := (s.lo + s.hi + 1) / 2
+		o = append(o, m)
+		q = append(q, seg{s.lo, m - 1}, seg{m + 1, s.hi})
+	}
+	return o
+}
+
+// CheckTree verifies contents (Len, in-order = sorted want, every traversal a permutation) and,
+// when balance is set, the AVL balance and depth bound of the tree reconstructed from the
+// pre-order and in-order traversals (values must be distinct then).
+func CheckTree(t *avl.Tree[int], want []int, balance bool) string {
+	if t.Len() != len(want) {
+		return fmt.Sprintf("Len = %d, want %d", t.Len(), len(want))
+	}
+	in, pre := t.SliceInOrder(), t.SlicePreOrder()
+	if !eq(in, want) {
+		return fmt.Sprintf("in-order %v, want %v", in, want)
+	}
+	if len(pre) != len(want) {
+		return fmt.Sprintf("pre-order has %d values, want %d", len(pre), len(want))
+	}
+	if !balance {
+		return ""
+	}
+	pos := make(map[int]int, len(in))
+	for i, v := range in {
+		pos[v] = i
+	}
+	idx := 0
+	bad := ""
+	var rec func(lo, hi int) int
+	rec = func(lo, hi int) int {
+		if lo > hi || idx >= len(pre) {
+			return 0
+		}
+		root := pre[idx]
+		p, ok := pos[root]
+		if !ok || p < lo || p > hi {
+			if bad == "" {
+				bad = fmt.Sprintf("pre-order %v and in-order %v are not traversals of one tree", pre, in)
+			}
+			return 0
+		}
+		idx++
+		l := rec(lo, p-1)
+		r := rec(p+1, hi)
+		if d := l - r; (d < -1 || d > 1) && bad == "" {
+			bad = fmt.Sprintf("balance violated at node %d: left height %d, right height %d (pre-order %v)", root, l, r, pre)
+		}
+		if l > r {
+			return l + 1
+		}
+		return r + 1
+	}
+	h := rec(0, len(in)-1)
+	if bad != "" {
+		return bad
+	}
+	if idx != len(pre) {
+		return fmt.Sprintf("pre-order %v and in-order %v are not traversals of one tree", pre, in)
+	}
+	if len(in) > 0 && h > depthBound(len(in)) {
+		return fmt.Sprintf("depth %d exceeds 1.4405*log2(n+2) = %d for n=%d", h, depthBound(len(in)), len(in))
+	}
+	return ""
+}
+
+// RemovalFamilies: for every size n in 1..maxN and every build order, a fresh tree of the values
+// 0..n-1 is built and then (a) every single value is removed from it, (b) for n <= pairsN every
+// ordered pair of values is removed; the tree is checked after each removal. trace is called
+// before each case. It returns the number of cases and the first failure.
+func RemovalFamilies(maxN, pairsN int, balance bool, trace func(v any)) (cases int, fail string, replay any) {
+	build := func(order []int) avl.Tree[int] {
+		t := avl.NewOrdered[int]()
+		for _, v := range order {
+			t.Add(v)
+		}
+		return t
+	}
+	without := func(n int, gone ...int) []int {
+		var w []int
+		for v := 0; v < n; v++ {
+			skip := false
+			for _, g := range gone {
+				if g == v {
+					skip = true
+				}
+			}
+			if !skip {
+				w = append(w, v)
+			}
+		}
+		return w
+	}
+	for n := 1; n <= maxN; n++ {
+		for _, bo := range BuildOrders {
+			order := bo.F(n)
+			for a := 0; a < n; a++ {
+				rp := map[string]any{"family": "build-then-remove", "build_order": bo.Name, "n": n, "remove": []int{a}}
+				if trace != nil {
+					trace(rp)
+				}
+				cases++
+				t := build(order)
+				if !t.Remove(a) {
+					return cases, fmt.Sprintf("Remove(%d) returned false on a tree of 0..%d built in %s order", a, n-1, bo.Name), rp
+				}
+				if m := CheckTree(&t, without(n, a), balance); m != "" {
+					return cases, fmt.Sprintf("tree of 0..%d built in %s order, after Remove(%d): %s", n-1, bo.Name, a, m), rp
+				}
+				if n > pairsN {
+					continue
+				}
+				for b := 0; b < n; b++ {
+					if b == a {
+						continue
+					}
+					rp2 := map[string]any{"family": "build-then-remove", "build_order": bo.Name, "n": n, "remove": []int{a, b}}
+					if trace != nil {
+						trace(rp2)
+					}
+					cases++
+					t2 := build(order)
+					t2.Remove(a)
+					t2.Remove(b)
+					if m := CheckTree(&t2, without(n, a, b), balance); m != "" {
+						return cases, fmt.Sprintf("tree of 0..%d built in %s order, after Remove(%d), Remove(%d): %s", n-1, bo.Name, a, b, m), rp2
+					}
+				}
+			}
+		}
+	}
+	return cases, "", nil
+}
